@@ -48,6 +48,9 @@ type Opts struct {
 	// 1..YieldLatMaxMs milliseconds with this probability ("any distribution of stage latencies").
 	YieldLatPermille int
 	YieldLatMaxMs    int
+	// Knobs overrides integer constants of rare that the instrumenter wrapped in KnobInt
+	// (key: "<package path>.<constant name>").
+	Knobs map[string]int
 }
 
 // Sim is the state of one run.
@@ -317,6 +320,10 @@ func Yield(site string) {
 	if g.held > 0 {
 		return
 	}
+	// park first: a goroutine that arrives here after waking from a fake-time sleep on its own may be
+	// running in parallel with others that woke at the same instant; nothing may be drawn from the tape
+	// before the scheduler has taken control again
+	s.park(g, site)
 	if s.Opts.YieldLatPermille > 0 && s.Tape.F(1000) < s.Opts.YieldLatPermille {
 		d := time.Duration(1+s.Tape.F(s.Opts.YieldLatMaxMs)) * time.Millisecond
 		s.mu.Lock()
@@ -327,8 +334,8 @@ func Yield(site string) {
 		if s.over.Load() {
 			g.exit()
 		}
+		s.park(g, site)
 	}
-	s.park(g, site)
 }
 
 // parkLockWait parks g until some lock is released; it is not runnable meanwhile, so a lock
@@ -342,6 +349,16 @@ func (s *Sim) parkLockWait(g *G, site string) {
 	if s.over.Load() && !g.exiting {
 		g.exit()
 	}
+}
+
+// KnobInt returns the run's override for a wrapped integer constant of rare, or the constant itself.
+func KnobInt(name string, def int) int {
+	if s := active.Load(); s != nil && s.Opts.Knobs != nil {
+		if v, ok := s.Opts.Knobs[name]; ok && v > 0 {
+			return v
+		}
+	}
+	return def
 }
 
 // Now returns the fake time elapsed since the start of the run.
